@@ -245,6 +245,9 @@ func (ctrl *DefaultController) Import(ctx context.Context, stream chan ledger.Lo
 	}
 
 	for log := range stream {
+		if err := validateImportedLog(log); err != nil {
+			return NewErrImport(err)
+		}
 		if lastLogID != nil && *log.ID <= *lastLogID {
 			return NewErrImport(fmt.Errorf("log %d already exists", *log.ID))
 		}
@@ -265,6 +268,11 @@ func (ctrl *DefaultController) Import(ctx context.Context, stream chan ledger.Lo
 					errors.Is(err, ledgerstore.ErrConcurrentTransaction{}):
 					return NewErrImport(errors.New("concurrent transaction occur" +
 						"red, cannot import the ledger"))
+				case errors.Is(err, postgres.ErrNotFound) ||
+					errors.Is(err, postgres.ErrConstraintsFailed{}) ||
+					errors.Is(err, ledgerstore.ErrTransactionReferenceConflict{}):
+					// the stream does not fit the ledger (unknown transaction, duplicate id or reference...)
+					return NewErrImport(fmt.Errorf("importing log %d: %w", *log.ID, err))
 				}
 				return fmt.Errorf("importing log %d: %w", *log.ID, err)
 			}
@@ -281,6 +289,29 @@ func (ctrl *DefaultController) Import(ctx context.Context, stream chan ledger.Lo
 	}
 
 	return err
+}
+
+// validateImportedLog checks that a log received from the import stream carries what importLog dereferences.
+func validateImportedLog(log ledger.Log) error {
+	if log.ID == nil {
+		return errors.New("log without id")
+	}
+	switch payload := log.Data.(type) {
+	case ledger.CreatedTransaction:
+		if payload.Transaction.ID == nil {
+			return fmt.Errorf("log %d: transaction without id", *log.ID)
+		}
+	case ledger.RevertedTransaction:
+		if payload.RevertedTransaction.ID == nil || payload.RevertTransaction.ID == nil {
+			return fmt.Errorf("log %d: transaction without id", *log.ID)
+		}
+		if payload.RevertedTransaction.RevertedAt == nil {
+			return fmt.Errorf("log %d: reverted transaction without revert date", *log.ID)
+		}
+	case nil:
+		return fmt.Errorf("log %d: missing data", *log.ID)
+	}
+	return nil
 }
 
 func (ctrl *DefaultController) importLog(ctx context.Context, store Store, log ledger.Log) error {
